@@ -41,7 +41,7 @@ func init() {
 		if err != nil {
 			return nil, err
 		}
-		fmt.Fprintf(w, "From Verif Require Import Base C18_Model.\n")
+		fmt.Fprintf(w, "From Verif Require Import Base C18_Model C18_Ops.\n")
 		// call sites: (file:func:line, method, in a wrapper that received ctx as a parameter?, form)
 		fmt.Fprintf(w, "Definition c18_call_sites : list (string * string * bool * cform) := [")
 		for i, s := range fa.Sites {
@@ -110,6 +110,8 @@ func init() {
 			fmt.Fprintf(w, "%s", c18Str(s))
 		}
 		fmt.Fprintf(w, "].\n")
+		// the roles record the operation trees of C18_Ops.v are built over
+		fmt.Fprintf(w, "Definition c18_roles : roles := %s.\n", fa.RolesTerm())
 		return map[string]interface{}{"source": fa, "copies_measured_on_running_gorm": cp}, nil
 	}
 }
